@@ -296,10 +296,13 @@ Qed.
 Definition waiting_in (s : db) (k : N) (r : ref) : Prop :=
   exists q, m_wait (getm s k) = Some q /\ In r (wq_items q).
 
+Definition cancel_target (s : db) (c : cmd) : option ref :=
+  match m_wait (getm s (c_key c)) with Some q => find_last_waiter s (wq_items q) (c_lockid c) None | None => None end.
+
 Lemma cancel_wait_lock_sum s conn c s' ev w :
   cancel_wait_lock s conn c = (s', ev, w) ->
   (keep s s' /\ rinfos ev = [(conn, c_req c, R_UNLOCK_ERROR)])
-  \/ (exists r l, aget (store s) r = Some l /\ l_timeouted l = false /\ waiting_in s (c_key c) r
+  \/ (exists r l, aget (store s) r = Some l /\ l_timeouted l = false /\ (waiting_in s (c_key c) r /\ cancel_target s c = Some r)
        /\ c_lockid (l_cmd l) = c_lockid c
        /\ chg1 s s' r (fun v => v = set_to true (view_of l))
        /\ rinfos ev = [(conn, c_req c, R_LOCKED_ERROR); (l_conn l, c_req (l_cmd l), R_UNLOCK_ERROR)]).
@@ -308,10 +311,10 @@ Proof.
   match type of H with context [match ?x with Some r => _ | None => _ end = _] => destruct x as [r|] eqn:Hw end.
   2:{ inv H. left. split; [keep_x|reflexivity]. }
   right.
-  assert (W : waiting_in s (c_key c) r /\ l_timeouted (getl s r) = false /\ c_lockid (l_cmd (getl s r)) = c_lockid c).
-  { destruct (m_wait (getm s (c_key c))) as [q|] eqn:Eq; [|discriminate].
+  assert (W : (waiting_in s (c_key c) r /\ cancel_target s c = Some r) /\ l_timeouted (getl s r) = false /\ c_lockid (l_cmd (getl s r)) = c_lockid c).
+  { assert (Hw0 := Hw). destruct (m_wait (getm s (c_key c))) as [q|] eqn:Eq; [|discriminate].
     apply find_last_waiter_spec in Hw. destruct Hw as [Hw|(Hi & Ht & Hc)]; [discriminate|].
-    split; auto. exists q. auto. }
+    split; auto. split; [exists q; auto|]. unfold cancel_target. rewrite Eq. exact Hw0. }
   destruct W as (W1 & W2 & W3).
   assert (Hl := getl_live_in_store _ _ W2). set (l := getl s r) in *.
   exists r, l. split; auto. split; auto. split; auto. split; auto.
@@ -352,7 +355,7 @@ Ltac neq_res := let X := fresh in intro X; vm_compute in X; discriminate X.
 Lemma unlock_step_sum s conn c s' ev w :
   unlock_step s conn c = (s', ev, w) ->
   (exists res, keepx s s' /\ rinfos ev = [(conn, c_req c, res)] /\ res <> R_EXPRIED)
-  \/ (exists r l, aget (store s) r = Some l /\ l_timeouted l = false /\ waiting_in s (c_key c) r
+  \/ (exists r l, aget (store s) r = Some l /\ l_timeouted l = false /\ (waiting_in s (c_key c) r /\ cancel_target s c = Some r)
        /\ c_lockid (l_cmd l) = c_lockid c
        /\ chg1 s s' r (fun v => v = set_to true (view_of l))
        /\ rinfos ev = [(conn, c_req c, R_LOCKED_ERROR); (l_conn l, c_req (l_cmd l), R_UNLOCK_ERROR)]).
